@@ -139,3 +139,71 @@ VH_ENTRY vh_cmap12_ref() {
   free(st);
   VH_END();
 }
+
+// ---- C10 / C13: one step of the cache-fill enumeration (CachedCmap::cache_subtable), format 12.  From any code point and any range key
+// that names a group at or before the one containing it (what the previous step returned, or 0), CmapSubtable12NextCodepoint returns the
+// next mapped code point and a key with which the keyed lookup (the one the cache stores) equals the full lookup (the one DirectCmap uses).
+// Induction over the steps gives: every mapped code point is visited once and cached with the direct path's glyph.
+VH_ENTRY vh_cmap12_step() {
+  const unsigned SUB = 16 + 12 * NGRP;
+  uint8_t *st = vh_bytes(SUB);
+  ASSUME(rd16(st) == 12 && rd32(st + 4) == SUB && rd32(st + 12) == NGRP);
+  for (unsigned i = 0; i < NGRP; ++i) {
+    ASSUME(rd32(st + 16 + 12 * i) <= rd32(st + 20 + 12 * i) && rd32(st + 20 + 12 * i) <= 0x10FFFF);
+    if (i) ASSUME(rd32(st + 20 + 12 * (i - 1)) < rd32(st + 16 + 12 * i));     // sorted, disjoint
+  }
+  uint32_t prev = nondet_u32(); ASSUME(prev < 0x10FFFF);
+  int key = (int)(nondet_u8() % (NGRP + 1));
+  // loop state of cache_subtable: the key names the group holding prev, or an earlier one (0 at the start)
+  unsigned holder = NGRP;       // first group whose end is >= prev
+  for (unsigned i = 0; i < NGRP; ++i) if (holder == NGRP && rd32(st + 20 + 12 * i) >= prev) holder = i;
+  ASSUME(key <= (int)holder && key < (int)NGRP);
+  unsigned int next = TtfUtil::CmapSubtable12NextCodepoint(st, prev, &key);
+  // reference: the smallest mapped code point above prev (prev == 0 asks for the first mapped code point), 0x10FFFF when there is none
+  uint32_t ref = 0x10FFFF; bool have = false;
+  for (unsigned i = 0; i < NGRP; ++i) {
+    uint32_t s = rd32(st + 16 + 12 * i), e = rd32(st + 20 + 12 * i);
+    if (have) continue;
+    if (prev == 0) { ref = s; have = true; }
+    else if (e > prev) { ref = s > prev ? s : prev + 1; have = true; }
+  }
+  ASSERT(next == ref, "enumeration: the next mapped code point (0x10FFFF at the end)");
+  if (next < 0x10FFFF) {
+    ASSERT(key >= 0 && key < (int)NGRP, "the range key names a group");
+    ASSERT(TtfUtil::CmapSubtable12Lookup(st, next, key) == TtfUtil::CmapSubtable12Lookup(st, next, 0), "keyed lookup (what the cache stores) == full lookup (what the direct path returns)");
+  }
+  free(st);
+  VH_END();
+}
+
+// ---- the same step lemma for format 4 (BMP).  Range key 0 means "search"; a non-zero key is used by the lookup without any search, so it
+// must name exactly the segment of the code point returned.
+VH_ENTRY vh_cmap4_step() {
+  const unsigned SUB = 16 + 8 * NSEG + 2 * NGID;
+  uint8_t *st = vh_bytes(SUB);
+  ASSUME(rd16(st) == 4 && rd16(st + 2) == SUB && rd16(st + 6) == 2 * NSEG);
+  ASSUME(TtfUtil::CheckCmapSubtable4(st, st + SUB));
+  const uint8_t *endc = st + 14, *startc = endc + 2 * NSEG + 2, *ro = startc + 4 * NSEG;
+  for (unsigned i = 0; i < NSEG; ++i) {
+    ASSUME(rd16(startc + 2 * i) <= rd16(endc + 2 * i));
+    if (i) ASSUME(rd16(endc + 2 * (i - 1)) < rd16(startc + 2 * i));
+    ASSUME((rd16(ro + 2 * i) & 1) == 0);
+  }
+  uint32_t prev = nondet_u16(); ASSUME(prev > 0 && prev < 0xFFFF);      // 0 = "first code point" and the U+0000/U+0001 case are handled by cache_subtable (cmap_paths queries)
+  int key = (int)(nondet_u8() % NSEG);
+  unsigned holder = NSEG - 1;
+  for (unsigned i = NSEG; i-- > 0; ) if (rd16(endc + 2 * i) >= prev) holder = i;
+  ASSUME(key <= (int)holder);
+  unsigned int next = TtfUtil::CmapSubtable4NextCodepoint(st, prev, &key);
+  uint32_t ref = 0xFFFF; bool have = false;
+  for (unsigned i = 0; i < NSEG; ++i) {
+    uint32_t s = rd16(startc + 2 * i), e = rd16(endc + 2 * i);
+    if (!have && e > prev) { ref = s > prev ? s : prev + 1; have = true; }
+  }
+  ASSERT(next == ref, "enumeration: the next code point covered by a segment (0xFFFF at the end)");
+  ASSERT(key >= 0 && key < (int)NSEG, "the range key names a segment");
+  if (next < 0xFFFF)
+    ASSERT(TtfUtil::CmapSubtable4Lookup(st, next, key) == TtfUtil::CmapSubtable4Lookup(st, next, 0), "keyed lookup (what the cache stores) == searched lookup (what the direct path returns)");
+  free(st);
+  VH_END();
+}
